@@ -275,6 +275,13 @@ def rest(ctx):
     # ---- R6: the two machines the macros instantiate: the inner construct only ever sees the decoded view
     machinery(ctx, "C10.R6")
     ctx.floor("C10.R6", 8)
+    # which of the two region implementations runs is decided by subcon.sizeof(): the sizing methods are side-effect free and translate a
+    # missing key (e.g. this._index in an element width) into SizeofError instead of inventing a value (shared with C05.R1)
+    from . import C05
+    for fi5 in M.own_methods("_sizeof"):
+        if fi5.cls is not None and fi5.cls.name in ("Array", "GreedyRange", "RepeatUntil", "Struct", "Sequence", "BitsInteger", "BytesInteger", "Bytes", "Padded", "IfThenElse", "Switch", "FocusedSeq", "Restreamed", "Transformed"):
+            C05.check_sizeof_def(ctx, fi5, fi5.cls.name, rule="C10.R7")
+    ctx.floor("C10.R7", 14)
     ctx.floor("C10.R3", 6)
 
     # positive control: swapped roles in the streaming branch
